@@ -958,3 +958,8 @@ mut("C07", "r12-handler-does-not-check-due", "modules/tasks.go",
 mut("C07", "r13-watcher-reads-task-ctx", "modules/tasks.go",
     "\t\tcase <-execCtx.Done():", "\t\tcase <-t.ctx.Done():", "C07-R13|modules.(*Task).runWithLocking", comment="reverts fix 8914cb4",
     extra=[{"file": "modules/tasks.go", "old": "\texecCtx := t.ctx\n", "new": ""}])
+mut("C11", "r14-group-leaves-operand-expected", "database/query/parser.go",
+    "\t\t\t\tconditions = append(conditions, condition)\n\t\t\t}\n\t\t\texpectingMore = false\n\t\tcase \")\":", "\t\t\t\tconditions = append(conditions, condition)\n\t\t\t}\n\t\t\texpectingMore = true\n\t\tcase \")\":",
+    "C11-R14|database/query.parseAndOr / loop back-edge", comment="reverts fix ce933f7")
+mut("C11", "r14-not-leaves-nothing-expected", "database/query/parser.go",
+    "\t\tcase \"not\":\n\t\t\twrapInNot = true\n\t\t\texpectingMore = true", "\t\tcase \"not\":\n\t\t\twrapInNot = true\n\t\t\texpectingMore = false", "C11-R14|database/query.parseAndOr / loop back-edge")
